@@ -38,6 +38,7 @@ type impTarget struct {
 	elem               string   // name of a type treated as an ABSTRACT element type F with operations mul / one / inv (field level)
 	abstract           []string // package-local functions called as ABSTRACT parameters (hash arguments dropped); their source text is
 	// emitted as `abstractSrc` so that an edit of them breaks the proofs that pin it
+	mode   string     // "h2f": Hash / SetBigInt of a field package (imp_h2f.go): parameters zeroF / setBigIntF / ExpandMsgXmd instead of mul / one / inv
 	grp    string     // name of a point type treated as an ABSTRACT group element type G with operations add / dbl / neg / zero (imp_grp.go)
 	inf    string     // name of the package-level variable holding the point at infinity (read as `zero`)
 	digest bool       // the MiMC digest state machine (imp_digest.go): struct over the abstract element type, field primitives / codecs as parameters
@@ -132,6 +133,11 @@ type impPkg struct {
 	translated    map[string]*impSig // pure package-local functions translated so far (callable from later ones)
 	file          *ast.File
 	digMethods    map[string]*impSig // digest mode: methods of the receiver struct translated so far (receiver passed and returned by value)
+	consts        map[string]string  // package-level integer constants `Name = literal` (mode h2f)
+	constsUsed    []string
+	modulus       string             // mode h2f: the literal of `_modulus.SetString("…", 16)` in init(), as a Lean hexadecimal numeral
+	imports       map[string]string  // local package name -> import path
+	elemMeth      map[string]*impSig // methods `func (z *Element) M(…) *Element` of this target translated so far (callable as X.M(…))
 }
 
 // helper defs of loops in generation order (inner loops first): what the all-packages-equal proofs need
@@ -185,6 +191,10 @@ func (p *impPkg) goType(e ast.Expr) *ity {
 			return tyByte
 		case "error":
 			return tyErr
+		case "int64": // mode h2f only: an Int in [-2^63, 2^63), every operation wraps explicitly
+			if p.tg.mode == "h2f" {
+				return &ity{k: "int64"}
+			}
 		}
 		if _, ok := p.structs[v.Name]; ok {
 			return &ity{k: "struct", name: v.Name}
@@ -274,7 +284,7 @@ func (p *impPkg) lty(t *ity, qual bool) string {
 		return "G"
 	case "array":
 		return "List " + p.ltyA(t.elem, qual)
-	case "bigint":
+	case "bigint", "int64":
 		return "Int"
 	case "bool":
 		return "Bool"
@@ -322,7 +332,7 @@ func (p *impPkg) ltyA(t *ity, qual bool) string {
 
 func (p *impPkg) zero(t *ity) string {
 	switch t.k {
-	case "int", "byte", "uint64":
+	case "int", "byte", "uint64", "int64":
 		return "0"
 	case "bool":
 		return "false"
@@ -367,10 +377,14 @@ func (p *impPkg) zero(t *ity) string {
 // ---------------------------------------------------------------------------------------------- loading
 
 func loadImp(tg impTarget) *impPkg {
-	p := &impPkg{tg: tg, fset: token.NewFileSet(), structs: map[string][]impField{}, errVars: map[string]string{}, funcs: map[string]*ast.FuncDecl{}, methods: map[string]*ast.FuncDecl{}, absDecl: map[string]*ast.FuncDecl{}, translated: map[string]*impSig{}, grpTranslated: map[string]*impSig{}, digMethods: map[string]*impSig{}}
+	p := &impPkg{tg: tg, fset: token.NewFileSet(), structs: map[string][]impField{}, errVars: map[string]string{}, funcs: map[string]*ast.FuncDecl{}, methods: map[string]*ast.FuncDecl{}, absDecl: map[string]*ast.FuncDecl{}, translated: map[string]*impSig{}, grpTranslated: map[string]*impSig{}, digMethods: map[string]*impSig{},
+		consts: map[string]string{}, imports: map[string]string{}, elemMeth: map[string]*impSig{}}
 	f, err := parser.ParseFile(p.fset, filepath.Join(repo, tg.dir, tg.file), nil, parser.ParseComments)
 	if err != nil {
 		die("imp: parse: %v", err)
+	}
+	if tg.mode == "h2f" {
+		p.loadH2F(f)
 	}
 	p.file = f
 	// pass 1: struct names (so that field types can refer to structs declared later)
@@ -634,6 +648,11 @@ func (p *impPkg) translateFunc(name string) string {
 			if len(fl.Names) > 0 {
 				p.die(fl, "named results")
 			}
+			if _, isPtr := fl.Type.(*ast.StarExpr); isPtr && p.tg.mode == "h2f" && f.recvTy != nil && f.recvTy.k == "elem" && len(fd.Type.Results.List) == 2 {
+				// `func (z *Element) M(…) (*Element, error)`: the returned pointer is z or nil: Option F
+				f.results = append(f.results, p.goType(fl.Type))
+				continue
+			}
 			f.results = append(f.results, p.paramType(fl.Type))
 		}
 	}
@@ -641,6 +660,15 @@ func (p *impPkg) translateFunc(name string) string {
 		// `func (z *Element) M(…) *Element`: the methods of the element type return their receiver; the def returns the new value of z
 		f.retSelf = true
 		f.results = nil
+		if p.tg.mode == "h2f" {
+			sig := &impSig{}
+			for _, fl := range fd.Type.Params.List {
+				for range fl.Names {
+					sig.params = append(sig.params, p.paramType(fl.Type))
+				}
+			}
+			defer func() { p.elemMeth[name] = sig }()
+		}
 	}
 	u := &iuses{}
 	c := &ictx{uses: u,
@@ -756,7 +784,7 @@ func impPasses() []string {
 	for _, fam := range grpFamilies {
 		res = append(res, fam.name)
 	}
-	return res
+	return append(res, "H2F", "Set")
 }
 
 func runImp() {
@@ -772,6 +800,29 @@ func runImp() {
 		}
 		targets = append(targets, impTarget{dir: d, file: "element.go", ns: "Exp_" + n, out: "Imp/Exp_" + n + ".lean", funcs: []string{"Exp"}, elem: "Element"})
 	}
+	// Hash (hash_to_field) and SetBigInt of every field package (imp_h2f.go)
+	for _, d := range fieldDirs {
+		n := leanName(d)
+		targets = append(targets, impTarget{dir: d, file: "element.go", ns: "H2F_" + n, out: "Imp/H2F_" + n + ".lean", funcs: []string{"SetBigInt", "Hash"}, elem: "Element", mode: "h2f"})
+	}
+	targets = append(targets, impTarget{dir: "ecc/bn254/fr", file: "element.go", ns: "H2F_generic", out: "Imp/H2F_generic.lean", funcs: []string{"SetBigInt", "Hash"}, elem: "Element", mode: "h2f"})
+	// the lenient setters SetBigInt / SetString / SetInt64 of every field package (C08; a pass of its own: Gen/Imp/Set_<pkg>.lean)
+	setFuncs := []string{"SetBigInt", "SetString", "SetInt64"}
+	for _, d := range fieldDirs {
+		n := leanName(d)
+		targets = append(targets, impTarget{dir: d, file: "element.go", ns: "Set_" + n, out: "Imp/Set_" + n + ".lean", funcs: setFuncs, elem: "Element", mode: "h2f"})
+	}
+	targets = append(targets, impTarget{dir: "ecc/bn254/fr", file: "element.go", ns: "Set_generic", out: "Imp/Set_generic.lean", funcs: setFuncs, elem: "Element", mode: "h2f"})
+	defer func() {
+		if impOnly == "" || impOnly == "Set" {
+			writeSetAll(expNames)
+		}
+	}()
+	defer func() {
+		if impOnly == "" || impOnly == "H2F" {
+			writeH2FAll(expNames)
+		}
+	}()
 	targets = append(targets, digestTargets()...)
 	defer func() {
 		if impOnly == "" || impOnly == "Mimc" {
@@ -822,12 +873,13 @@ func runImp() {
 			continue
 		}
 		impAbsParams, impAbsArgs = "", ""
+		h2fGeneric = strings.HasSuffix(tg.ns, "_generic")
 		impExtraReserved = nil
 		if tg.grp != "" {
 			impAbsParams, impAbsArgs = grpAbsParams, grpAbsArgs
 			impExtraReserved = grpReserved
 		}
-		if tg.elem != "" {
+		if tg.elem != "" && tg.mode == "" {
 			impAbsParams, impAbsArgs = " {F : Type} (mul : F → F → F) (one : F) (inv : F → F)", " mul one inv"
 		}
 		if tg.digest {
@@ -900,9 +952,17 @@ func runImp() {
 				}
 			}
 		}
+		var bodies strings.Builder
 		for _, fn := range tg.funcs {
-			b.WriteString(p.translateFunc(fn))
+			if tg.mode == "h2f" {
+				impAbsParams, impAbsArgs = h2fParams(fn)
+			}
+			bodies.WriteString(p.translateFunc(fn))
 		}
+		if tg.mode == "h2f" {
+			b.WriteString(p.h2fHeader())
+		}
+		b.WriteString(bodies.String())
 		fmt.Fprintf(&b, "end GV.Gen.Imp.%s\n", tg.ns)
 		famInfos[tg.ns] = p.loopInfos
 		for _, fn := range tg.funcs {
